@@ -7,8 +7,8 @@ from urllib.parse import quote, unquote
 
 VERIF = Path(__file__).resolve().parent.parent
 REPO = Path(os.environ.get('VERIF_REPO', '/repo'))
-EVIDENCE_DIR = VERIF / 'evidence'
-REPLAY_DIR = VERIF / 'replays'
+EVIDENCE_DIR = Path(os.environ.get('VERIF_EVIDENCE_DIR') or VERIF / 'evidence')     # override only for trying mutants
+REPLAY_DIR = Path(os.environ.get('VERIF_REPLAY_DIR') or VERIF / 'replays')
 KNOWN_FILE = VERIF / 'known_findings.txt'
 NCPU = int(os.environ.get('VERIF_JOBS', '0')) or min(16, os.cpu_count() or 1)
 
